@@ -279,6 +279,11 @@ func (ms *Modules) process() []error {
 	for _, m := range ms.Modules {
 		mods = append(mods, m)
 	}
+	// Submodules are normally reached through the module that includes
+	// them; one whose module is missing must still be linked.
+	for _, m := range ms.SubModules {
+		mods = append(mods, m)
+	}
 	for _, m := range mods {
 		if err := ms.include(m); err != nil {
 			errs = append(errs, err)
